@@ -363,6 +363,7 @@ APPLY_FUNCS = {
 	"drain": lambda vals: (tuple(vals), vals.clear())[0],   # consumes its input list: a later callback must still get fresh values
 	"identity": lambda vals: vals,      # hands its argument back: each group's cell must hold THAT group's values
 	"sort-in-place": lambda vals: (vals.sort(key=repr), tuple(vals))[1],      # reorders its input list in place
+	"next-non-none": lambda vals: next(v for v in vals if v is not None),      # StopIteration for a group that holds nothing but None: an exception like any other
 	"strip-first": lambda vals: vals[0].strip(),      # AttributeError for a group that starts with None (or a number): the call's outcome, raised once
 	"real-sum": lambda vals: sum(v.real for v in vals),      # AttributeError on None / str cells
 	"builtin-sum": sum, "builtin-max": max, "builtin-min": min, "builtin-len": len, "builtin-list": list,      # the bare built-ins, passed as they are (no wrapper)
